@@ -54,6 +54,25 @@ class StageModel:
         elif op == 'MZg':
             self.nc = 0
 
+    def successors(self, op) -> list:
+        """Acceptable model states after a call that returned normally (first = what the pinned
+        tree does). A call that rebuilds the slices table while groups exist may leave the
+        isolation flags as after slicing or as after grouping - both are tables of the canonical
+        run; likewise a call that rebuilds the groups table while layers exist may leave the
+        component counts as after grouping or as after layering."""
+        base = self.copy()
+        base.apply(op)
+        out = [base]
+        if op in ('FS', 'MZs') and base.g:
+            alt = base.copy()
+            alt.iso = 1
+            out.append(alt)
+        if op in ('FG', 'MZg') and base.l:
+            alt = base.copy()
+            alt.nc = 1
+            out.append(alt)
+        return out
+
     def expected(self, traj) -> dict:
         """Assemble the expected component digests from the canonical trajectory
         traj[0..3] = parts after construction, FS, FG, FL."""
@@ -89,9 +108,7 @@ def reachable_stage_pairs():
         for op in STAGE_OPS:
             pairs.add((st.key(), op))
             if st.prerequisite_ok(op):
-                nxt = st.copy()
-                nxt.apply(op)
-                todo.append(nxt)
+                todo.extend(st.successors(op))
     return pairs
 
 
